@@ -602,7 +602,10 @@ def check_pyscf(res, rng, thorough, deadline):
                                                                                  (3, 2, [0, 1])]),
         ("LiH/sto-3g", "Li 0 0 0; H 0 0 1.6", "sto-3g", 0, 0, [(2, 2, None), (2, 3, [1, 2, 5]), (4, 4, None),
                                                                   (2, 2, [2, 1]), (4, 3, [0, 1, 5])]),
+        # a molecule with an effective core potential: the one-electron Hamiltonian has a term beyond kinetic + nuclear
+        ("NaH/lanl2dz with ECP", "Na 0 0 0; H 0 0 1.9", {"Na": "lanl2dz", "H": "sto-3g"}, 0, 0, [(2, 2, None), (2, 3, [0, 1, 3])]),
     ]
+    ecps = {"NaH/lanl2dz with ECP": {"Na": "lanl2dz"}}
     if thorough:
         mols += [
             ("H4/sto-3g", "H 0 0 0; H 0 0 0.8; H 0 0.9 1.7; H 0.3 0 2.6", "sto-3g", 0, 0,
@@ -619,7 +622,7 @@ def check_pyscf(res, rng, thorough, deadline):
             break
         inp0 = {"molecule": label, "atom": atom, "basis": basis, "spin": spin, "charge": charge}
         try:
-            mol = gto.M(atom=atom, basis=basis, spin=spin, charge=charge, verbose=0)
+            mol = gto.M(atom=atom, basis=basis, spin=spin, charge=charge, verbose=0, **({"ecp": ecps[label]} if label in ecps else {}))
             mf = (scf.ROHF(mol) if spin else scf.RHF(mol))
             mf.conv_tol = 1e-12
             mf.run()
@@ -636,7 +639,7 @@ def check_pyscf(res, rng, thorough, deadline):
         res.count(("pyscf-full", label), bucket="pyscf:full_space")
         # library AO arrays vs PySCF chemist integrals through my documented convention
         eri_ao = mol.intor("int2e")  # chemist (ij|kl), full 4-index
-        hcore = mol.intor("int1e_kin") + mol.intor("int1e_nuc")
+        hcore = scf.hf.get_hcore(mol)   # kinetic + nuclear attraction (+ the effective core potential, if the molecule has one)
         if maxdiff(set_py.ao_1e_int.array, hcore) > TOL or maxdiff(set_mem.ao_1e_int.array, hcore) > TOL \
                 or maxdiff(set_py.ao_2e_int.array, chem_to_lib(eri_ao)) > TOL \
                 or maxdiff(set_mem.ao_2e_int.array, chem_to_lib(eri_ao)) > TOL:
